@@ -223,6 +223,7 @@ def run(ctx):
                  {"output": rc.stdout[-2000:]}, False)
     # 2. theorems (rebuilds Gen_Clone.vo and its dependants)
     ok_proofs = ctx.check_props(extra=["theories/Corr/Corr_C22.v"])
+    t_proofs = time.time() - t0
     found_witness = False
     n_fields = 0
     if translator_ok:
@@ -281,11 +282,11 @@ def run(ctx):
         srcs = example_sources()
         names = sorted(srcs)
         if quick:
-            # every multi-agent / hierarchical / scheduling example, and a seeded-random half of the rest
+            # every multi-agent / hierarchical / scheduling example, and a seeded-random third of the rest
             keep = [n for n in names if n.startswith("ma:") or not type(srcs[n]).__name__ == "Problem"]
             rest = [n for n in names if n not in keep]
             rng.shuffle(rest)
-            names = sorted(keep + rest[:len(rest) // 2])
+            names = sorted(keep + rest[:len(rest) // 3])
         todo = [(n, srcs[n]) for n in names]
         for cn in ("Problem", "ContingentProblem", "HierarchicalProblem", "MultiAgentProblem", "SchedulingProblem"):
             todo.append(("seeded:" + cn, seeded_problem(cn)))
@@ -295,7 +296,7 @@ def run(ctx):
         for name, p in todo:
             modelled = not isinstance(p, (MultiAgentProblem, SchedulingProblem))
             big = name in ("ma:ma_buttons",)
-            n_both = rng.randint(10, 24 if (quick or big) else 50)
+            n_both = rng.randint(10, 22 if (quick or big) else 50)
             n_single = rng.randint(2, 6 if quick else 10)
             rec = Recorder() if modelled else None
             tags0 = ["class:" + type(p).__name__]
@@ -318,13 +319,18 @@ def run(ctx):
                     cases.append(rec.case())
                     raw.append({"source": name, "class": type(p2).__name__, "steps": tr.steps})
     stats["sent_to_coq"] = len(cases)
-    t_impl = time.time() - t0
+    t_impl = time.time() - t0 - t_proofs
+    t1 = time.time()
 
     # 4. the model replays every history
     bad = []
     if cases:
         try:
-            bad = ctx.coq_failing(cases, "ok", imports=IMPORTS, shard=12 if quick else 20, timeout=900)
+            shard = 14 if quick else 25
+            par = int(os.environ.get("C22_COQ_PAR", "2"))          # coqc processes at a time (the machine is shared)
+            for base in range(0, len(cases), par * shard):
+                bad += [base + j for j in ctx.coq_failing(cases[base:base + par * shard], "ok", imports=IMPORTS,
+                                                          shard=shard, timeout=900)]
         except Exception as e:
             ctx.fail("corr", "Coq could not evaluate the correspondence cases: %s" % str(e)[-800:], ["corr-machinery"],
                      {"error": str(e)[-2000:]}, False)
@@ -350,7 +356,8 @@ def run(ctx):
         "distribution": stats,
         "fields_in_tables": n_fields,
         "traces_validated_against_impl": len(cases),
-        "impl_seconds": round(t_impl, 1),
+        "seconds": {"translator_and_theorems": round(t_proofs, 1), "implementation_and_oracle": round(t_impl, 1),
+                    "model_replay_in_coq": round(time.time() - t1, 1)},
     }, "proof", assumptions=[
         "environment flag error_used_name = True (the default)",
         "distinct user types have distinct names; metrics refer to the problem's own actions by unique names",
